@@ -508,8 +508,14 @@ func c03LetDriver(maxParams int) func(c *explore.Chooser, k int) *c03Case {
 		if c.Choose(4) == 0 {
 			// a variable of each menu type that has a literal
 			t := c03Pick(c, 10, true)
-			fmt.Fprintf(&fo, "let tv%d = %s\n\n", k, t.foVal)
-			fmt.Fprintf(&cl, "\tvar x %s = tv%d\n\tfmt.Println(%s)\n", t.gt, k, t.showOf("x"))
+			val := t.foVal
+			if strings.HasPrefix(val, "(fun ") && c.Bool() {
+				// the lambda written without the parentheses (after seed C03i: `let name = fun ...` turned into a func)
+				val = val[1 : len(val)-1]
+			}
+			fmt.Fprintf(&fo, "let tv%d = %s\n\n", k, val)
+			// a package VARIABLE: its address can be taken and it can be assigned (a func declaration offers neither)
+			fmt.Fprintf(&cl, "\tvar px *%s = &tv%d\n\tsaved := *px\n\ttv%d = saved\n\tvar x %s = tv%d\n\tfmt.Println(%s)\n", t.gt, k, k, t.gt, k, t.showOf("x"))
 			cs.want = append(cs.want, t.want)
 			cs.kind = "top-level-variable"
 			cs.fo, cs.client = fo.String(), cl.String()
@@ -818,6 +824,7 @@ func checkC03(c *core.Ctx) {
 	collect(c03ForeignDriver(fa))
 	collect(c03FunResultDriver())
 	collect(c03BindersDriver())
+	collect(c03TypeParamOrderDriver())
 	c.Count(0, total.States, total.Transitions, 0)
 	const per = 150
 	var wg sync.WaitGroup
